@@ -39,6 +39,7 @@ type c18Scenario struct {
 	NewNick     string `json:"welcome_nick"` // nick given by the first 001 ("" = no 001)
 	LateConfig  bool   `json:"late_config"`  // Server / SSL / Pass are set through Config() after Client(), before Connect()
 	Backlog     int    `json:"backlog"`      // lines queued behind a server that is not reading when the PINGs arrive
+	Chatty      bool   `json:"chatty"`       // the server keeps talking while the client's keep-alive PINGs are awaited
 	Lines       []c18Line
 }
 
@@ -59,6 +60,7 @@ func genC18(t *rapid.T) *c18Scenario {
 		NewNick:    rapid.SampledFrom([]string{"", "me", "other9", "Nick_1"}).Draw(t, "welcome_nick"),
 	}
 	sc.LateConfig = rapid.Bool().Draw(t, "late_config")
+	sc.Chatty = rapid.Bool().Draw(t, "chatty")
 	if rapid.IntRange(0, 3).Draw(t, "backlog") == 0 {
 		sc.Backlog = rapid.SampledFrom([]int{20, 33, 40, 80}).Draw(t, "backlog_n")
 	}
@@ -80,7 +82,7 @@ func genC18(t *rapid.T) *c18Scenario {
 				l.Token = Q(":" + fmt.Sprint(i) + ":x")
 				l.Form = 0
 			case 3:
-				l.Token = Q(" lead" + fmt.Sprint(i))
+				l.Token = Q(rapid.SampledFrom([]string{" lead", "trail ", " ", "tab\t", "two  ", " both "}).Draw(t, "ws_token") + fmt.Sprint(i) + rapid.SampledFrom([]string{"", " ", "  ", "\t"}).Draw(t, "ws_tail"))
 				l.Form = 0
 			case 4:
 				l.Token = Q(strings.Repeat("L", rapid.SampledFrom([]int{400, 600, 5000}).Draw(t, "long")) + fmt.Sprint(i))
@@ -197,6 +199,12 @@ func runC18(sc *c18Scenario) *Violation {
 		if strings.Join(reg, "\n") != strings.Join(want, "\n") {
 			return violationf("C18", "cycle %d: registration lines %q, want %q", cycle, reg, want)
 		}
+		if sc.CapNeg {
+			conn.SendLine(":irc.server CAP * LS :multi-prefix sasl server-time")
+			if !tc.syncOut(stallTimeout()) {
+				return violationf("C18", "cycle %d: no answer after CAP LS reply", cycle)
+			}
+		}
 		if cycle == 0 && sc.NewNick != "" {
 			conn.SendLine(":irc.server 001 " + sc.NewNick + " :Welcome to IRC " + sc.NewNick + "!" + sc.Ident + "@host")
 			curNick = sc.NewNick
@@ -272,6 +280,21 @@ func runC18(sc *c18Scenario) *Violation {
 		// keep-alive
 		switch {
 		case sc.PingFreqMS == 20:
+			stopChat := make(chan struct{})
+			if sc.Chatty {
+				// traffic from the server does not replace the client's own keep-alive
+				go func() {
+					for {
+						select {
+						case <-stopChat:
+							return
+						case <-time.After(4 * time.Millisecond):
+							conn.SendLine(":irc.server NOTICE me :still here")
+						}
+					}
+				}()
+			}
+			defer close(stopChat)
 			ok := conn.WaitWritten(func(w string) bool {
 				return strings.Count(w, "\r\nPING :")+boolInt(strings.HasPrefix(w, "PING :")) >= 3
 			}, 30*time.Second)
